@@ -642,8 +642,13 @@ func check(id, tier string) int {
 			switch nv := v.(type) {
 			case float64:
 				if ov, ok := s.Extra[k2].(float64); ok {
-					if strings.HasPrefix(k2, "max_") || strings.HasSuffix(k2, "_completed") {
+					if strings.HasPrefix(k2, "max_") {
 						if nv > ov {
+							s.Extra[k2] = nv
+						}
+					} else if strings.HasSuffix(k2, "_completed") {
+						// a bound is completed only if every shard completed it
+						if nv < ov {
 							s.Extra[k2] = nv
 						}
 					} else {
